@@ -361,7 +361,7 @@ PROPS = {
         technique="Lean 4 theorem over a regenerated global-state table + race-detector differential run",
     ),
     "C20": dict(
-        modules=["SpatialId.Props.C20", "SpatialId.Props.C20Vec", "SpatialId.Props.Facts.Quat"],
+        modules=["SpatialId.Props.C20", "SpatialId.Props.C20Vec", "SpatialId.Props.C20Err", "SpatialId.Props.Facts.Quat"],
         families=[("sets", 30000, 200000), ("ashift", 20000, 200000), ("combLattice", 1, 1), ("vec", 30000, 300000),
                   ("vecnum", 20000, 200000)],
         trusted_base=COMMON_TB + F64_TB,
